@@ -263,7 +263,9 @@ pub fn run_c01(ctx: &Ctx) -> (&'static str, Map<String, Value>) {
 }
 
 pub fn run_c07(ctx: &Ctx) -> (&'static str, Map<String, Value>) {
-    let devs = dev_msgs();
+    let mut devs = dev_msgs();
+    devs.extend(dev_entry());
+    devs.extend(dev_aux());
     let mut cfgs = breadth(ctx, devs, ctx.tier.thorough());
     // parameter lattice at counters {0,1,roll-over,last}: every (W,h) pair for L<=2 over h in {2,5}
     let hashes: Vec<Hid> = if ctx.tier.thorough() { ALL_HASHES.to_vec() } else { vec![Hid::S32, Hid::S24, Hid::S16, Hid::K24] };
